@@ -27,7 +27,8 @@ other_common_names_set = {'datetime', 'time', 'date', 'defaultdict', 'schema'}
 # Names that generated modules import or rely on: a field or a class with such a name would shadow them
 generated_code_names_set = {
     'attr', 'field', 'dataclass', 'optional', 'convert_strings', 'self',
-    'json', 'copy', 'fields', 'construct', 'validate',
+    'json', 'copy', 'fields', 'construct', 'validate', 'schema_json', 'from_orm', 'update_forward_refs',
+    'parse_obj', 'parse_raw', 'parse_file',
     'Any', 'Dict', 'List', 'Literal', 'Optional', 'Union',
     'BaseModel', 'Field', 'SQLModel', 'Config', 'ClassType',
     'IntString', 'FloatString', 'BooleanString', 'IsoDateString', 'IsoTimeString', 'IsoDatetimeString',
